@@ -332,8 +332,8 @@ class Gaussian(Distribution):
             else:
                 perturbation = spa.linalg.spsolve(self.sqrtprec, e)
         else:
-            if np.allclose(self.sqrtprec, np.tril(self.sqrtprec)): # matrix is triangular
-                perturbation = splinalg.solve_triangular(self.sqrtprec, e)
+            if np.allclose(self.sqrtprec, np.tril(self.sqrtprec)): # matrix is lower triangular
+                perturbation = splinalg.solve_triangular(self.sqrtprec, e, lower=True)
             else:
                 perturbation = splinalg.solve(self.sqrtprec, e)
 
